@@ -13,17 +13,53 @@
    TNext is PROPERTY-LEVEL: step j is accepted iff Stitch!StepOK holds for (text of step j-1, part j, detected
    overlap, text and row count of step j).  Whether the recorded text / rows / overlap are exactly those of the
    modelled slice arithmetic and overlap detection is tracked in `drift` and never blocks (progress 1000 =
-   property satisfied, detailed model left).                                                              *)
+   property satisfied, detailed model left).
+
+   Scale / scope classes beyond what TLC enumerates (round 7).  The symbols of a trace are plain integers, so a part
+   may be written in ANY alphabet: ids 1..8 are the letters a..h, every other id is the Unicode code point of the
+   character itself (Latin-1 > 127, Czech / Cyrillic / CJK > 255, U+FFxx just below 65 536, Gothic / mathematical /
+   emoji / plane-16 characters > 65 535); lists may have more than 255 parts, parts more than 255 characters, overlaps
+   more than 255 characters, surplus logit rows more than 65 535.  TLC cannot enumerate those inputs, but it still
+   JUDGES them: every clause below is evaluated by TLC on the recorded integers, nothing is decided in Python.
+     kind       "parts" | "scale" | "big".  "big" only switches off the comparison with the modelled overlap detection
+                (BestOverlap over 250+ characters costs TLC ~n^4 steps; that comparison is drift, never a verdict).
+     line, starts   the line the parts were cut from and the 1-based start of every part in it (<<>>, <<>> when the
+                parts are not windows of one text).  TLC itself checks (TrueWindows) that the recorded parts ARE
+                overlapping windows of `line`, nothing is taken on trust; a window with recognition noise or an
+                inserted empty part simply is not one.
+   Two clauses are added to the statement's StepOK for every merge:
+     NoCommon   a "detected overlap" o > 0 whose two sides have nothing in place (edit distance >= o, i.e. CER >= 1,
+                counted in CHARACTERS) is no overlap: such parts "share no overlap with their neighbour" and must be
+                concatenated unchanged (last sentence of the statement);
+     win        for true noise-free windows of one text (first class of the scope sentence) the excuse of the weak
+                reading ("from floor(o/2) on, because the first half of the overlap is taken from the neighbour") does
+                not exist: both sides of the real overlap are the same characters, so "ends with the last part" holds
+                IN FULL after every merge.                                                                  *)
 EXTENDS Stitch, TraceKit
-VARIABLES tid, drift, fin
+VARIABLES tid, drift, fin, win
 
 Tr == Traces[tid]
 RowsOf(r) == [j \in 1..Len(r) |-> <<r[j][1], r[j][2]>>]
+
+\* the recorded parts are overlapping windows of the recorded line: part p = line[starts[p] .. starts[p] + len - 1], every
+\* window starts after and ends not before its predecessor and shares at least one character position with it
+TrueWindows(ps, line, st) ==
+    /\ Len(st) = Len(ps)
+    /\ \A p \in 1..Len(ps) : /\ Len(ps[p]) >= 1 /\ st[p] >= 1 /\ st[p] + Len(ps[p]) - 1 <= Len(line)
+                              /\ ps[p] = SubSeq(line, st[p], st[p] + Len(ps[p]) - 1)
+    /\ \A p \in 2..Len(ps) : /\ st[p] > st[p - 1] /\ st[p] <= st[p - 1] + Len(ps[p - 1]) - 1
+                              /\ st[p] + Len(ps[p]) >= st[p - 1] + Len(ps[p - 1])
+
+\* a detected overlap o > 0 whose sides Suffix(tx, o) / Prefix(t, o) have no character in place (CER >= 1)
+NoCommon(tx, t, o) == /\ o > 0 /\ o <= Len(tx) /\ o <= Len(t)
+                      /\ Suffix(tx, o) # Prefix(t, o)
+                      /\ Lev(Suffix(tx, o), Prefix(t, o)) >= o
 
 TInit == /\ tid \in 1..NTraces
          /\ parts = Tr.parts /\ extra = Tr.extra
          /\ k = 0 /\ txt = <<>> /\ rows = <<>> /\ overlaps = <<>>
          /\ drift = FALSE /\ fin = FALSE
+         /\ win = TrueWindows(Tr.parts, Tr.line, Tr.starts)
 
 \* a list with one part is returned as it is, logits shrunk to the text length
 First == /\ k = 0 /\ k' = 1
@@ -40,9 +76,11 @@ TMerge == /\ k >= 1 /\ k < Len(parts) /\ k' = k + 1
              IN /\ s.outcome = "ok"
                 /\ s.o \in 0..Len(t) /\ s.o <= Len(txt)
                 /\ StepOK(txt, t, s.o, s.text, Len(s.rows))
+                /\ NoCommon(txt, t, s.o) => s.text = txt \o t                 \* nothing in common: concatenated unchanged
+                /\ win => IsSuffix(t, s.text)                                 \* true windows: ends with the last part in full
                 /\ txt' = s.text /\ rows' = RowsOf(s.rows) /\ overlaps' = Append(overlaps, s.o)
                 /\ LET m == MergeTwo(txt, rows, t, Shrunk(k + 1), s.o)
-                   IN drift' = (drift \/ s.o # BestOverlap(txt, t) \/ s.text # m[1] \/ RowsOf(s.rows) # m[2])
+                   IN drift' = (drift \/ (Tr.kind # "big" /\ s.o # BestOverlap(txt, t)) \/ s.text # m[1] \/ RowsOf(s.rows) # m[2])
           /\ UNCHANGED <<parts, extra>>
 
 \* the caller's result is the merge of all parts, with one logits row per character
@@ -52,7 +90,7 @@ Finish == /\ k = Len(parts) /\ ~fin /\ fin' = TRUE
           /\ drift' = (drift \/ RowsOf(Tr.final.rows) # rows)
           /\ UNCHANGED <<parts, extra, k, txt, rows, overlaps>>
 
-TNext == UNCHANGED tid /\ ((First /\ UNCHANGED fin) \/ (TMerge /\ UNCHANGED fin) \/ Finish)
+TNext == UNCHANGED <<tid, win>> /\ ((First /\ UNCHANGED fin) \/ (TMerge /\ UNCHANGED fin) \/ Finish)
 \* progress: number of merged parts (= Len(parts) when only the caller's final result is wrong); 1000 = statement holds, drift
 TAccept == TKMark(tid, IF fin THEN 1000 ELSE k, fin /\ ~drift)
 TPost == TKPost
